@@ -21,8 +21,8 @@ def run(chk):
     if chk.tier == "thorough":
         # the same boundaries under every single execution-relevant flag and the standard set
         extra = []
-        for fl in [[f] for f in G.EXEC_FLAGS] + [drivers.STANDARD]:
-            for j in gen_limits.limit_jobs(prefix="fl" + "".join(x[0] for x in fl), cmp=CMP, modes=("steps",)):
+        for k, fl in enumerate([[f] for f in G.EXEC_FLAGS] + [drivers.STANDARD]):
+            for j in gen_limits.limit_jobs(prefix="fl%d" % k, cmp=CMP, modes=("steps",)):
                 j.flags = sorted(set(j.flags) | set(fl))
                 extra.append(j)
         jobs += extra
